@@ -80,6 +80,10 @@ def strat_1d(draw, tier):
     if g.get("h_abs") and draw(st.booleans()):
         # (the cut-off of the large-jump compensator only matters for infinite variation: built, not waited for)
         model = draw(chain_model_spec(families=("cgmy",), cgmy_branches=("y=1", "1<y<2")))
+    if model["family"] in ("cgmy", "vg") and draw(st.integers(0, 2)) == 0:
+        # a model of the user's own: the same jumps plus a Brownian component (no library family combines a diffusion
+        # coefficient with infinite-variation jumps); plain Levy model, no exponential wrapper
+        model = dict(model, exp=None, added_sigma=draw(st.sampled_from([0.05, 0.3, 1.5])))
     return {"model": model, "grid": g,
             "rep": draw(st.sampled_from(REPS)),
             "method": draw(st.sampled_from(["INVERSION", "BINARYSEARCHTREEADAPTED1D", "BINARYSEARCHTREE"]))}
@@ -134,6 +138,9 @@ def body_1d(case):
     base_nu = build_model(spec, force_exp=False).levy_triplet.nu
     hints = quad_hints(spec)
     sigma = float(spec["params"].get("sigma", 0.0)) if spec["family"] in ("hem", "merton") else 0.0
+    if spec.get("added_sigma"):
+        sigma = float(spec["added_sigma"])
+        out.append(Violation("LABEL:own-brownian-component/" + ("finite-variation" if fv else "infinite-variation")))
     extra = float(proc.equivalent_diffusion_coefficient) ** 2 - sigma ** 2
     h = float(grid.h)
     if fv:
@@ -320,7 +327,8 @@ SUBCHECKS = [
                   "non-trivial = refined or non-uniform grid or re-declared representation or infinite variation",
              strategy=strat_1d, budget={"quick": 720, "thorough": 3000},
              shards={"quick": 16, "thorough": 16},
-             essential_labels=("infinite-variation", "rep=CENTER", "rep=ONEONE", "step-above-2/infinite-variation")),
+             essential_labels=("infinite-variation", "rep=CENTER", "rep=ONEONE", "step-above-2/infinite-variation",
+                               "own-brownian-component/infinite-variation")),
     SubCheck("mean-copula-margins", body_copula, classify_copula,
              rule="copula chains d=2,3 (as in C01) x declared representation per margin: every margin's mean "
                   "per unit time (drift + sum over all states of x_k * rate) vs its truncated margin mean, with "
